@@ -663,7 +663,7 @@ func Run(c *core.Ctx) core.FinishOpts {
 			j.checkTree(id, t, s, (i+k)%4, whereSample, i)
 		}
 		c.Count("trees/random_depth3", 1)
-		if i%997 == 0 {
+		if i%25 == 0 {
 			c.Sample(map[string]interface{}{"id": fmt.Sprintf("rnd-%d", i), "tree": t.sql(names), "depth": t.depth()})
 		}
 	})
